@@ -356,7 +356,7 @@ def total_formula(c, scope, depth):
 
 
 def render_full(e):
-    if e[0] == 'atom':
+    if e[0] in ('atom', 'patom'):
         return e[1]
     if e[0] == 'not':
         return '!(%s)' % render_full(e[1])
@@ -365,8 +365,10 @@ def render_full(e):
 
 def render_min(e, parent=None, right=False):
     """only the parentheses the grammar needs: ! binds tighter than &&, && tighter than ||"""
-    if e[0] == 'atom':
+    if e[0] in ('atom', 'patom'):
         return e[1]
+    if e[0] == 'not' and e[1][0] == 'patom':
+        return '!' + e[1][1]                 # a negated predicate call needs no parentheses
     if e[0] == 'not':
         return '!(%s)' % render_min(e[1])
     t = '%s %s %s' % (render_min(e[1], e[0], False), '&&' if e[0] == 'and' else '||', render_min(e[2], e[0], True))
@@ -383,7 +385,31 @@ def check_c12(c, result):
         als = c.rng.sample(['m', 'md', 'x', 'e1', 'cd', 'q'], nk)
         scope = list(zip(als, ks))
         A, Bf, Cf = (total_formula(c, scope, c.rng.choice([0, 1, 2])) for _ in range(3))
-        head = 'FROM ' + ', '.join('%s AS %s' % (k, a) for a, k in scope) + ' '
+        decls = ''
+        if i % 2 == 1:
+            # atoms hidden behind predicates whose body is that single comparison: `!t0(x)` must still negate the
+            # whole comparison
+            kind_of = dict(scope)
+            pn = [0]
+            def hide(e):
+                if e[0] == 'atom':
+                    al = next((a_ for a_ in sorted(kind_of, key=len, reverse=True) if re.search(r'(?<![A-Za-z0-9_])%s\.' % re.escape(a_), e[1])), None)
+                    if al is None or c.rng.random() < 0.3:
+                        return e, ''
+                    name = 't%d' % pn[0]
+                    pn[0] += 1
+                    body = re.sub(r'(?<![A-Za-z0-9_])%s\.' % re.escape(al), 'y9.', e[1])
+                    return ('patom', '%s(%s)' % (name, al)), 'predicate %s(%s y9) { %s } ' % (name, kind_of[al], body)
+                if e[0] == 'not':
+                    x, d = hide(e[1])
+                    return ('not', x), d
+                x, d1 = hide(e[1])
+                y, d2 = hide(e[2])
+                return (e[0], x, y), d1 + d2
+            (A, dA), (Bf, dB), (Cf, dC) = hide(A), hide(Bf), hide(Cf)
+            decls = dA + dB + dC
+            c.stats['c12_cases_with_predicate_atoms'] += 1
+        head = decls + 'FROM ' + ', '.join('%s AS %s' % (k, a) for a, k in scope) + ' '
         tail = ' SELECT ' + als[0]
         F = dict(A=A, B=Bf, AND=('and', A, Bf), OR=('or', A, Bf), NOT=('not', A),
                  DM1=('not', ('and', A, Bf)), DM1b=('or', ('not', A), ('not', Bf)), DM2=('not', ('or', A, Bf)), DM2b=('and', ('not', A), ('not', Bf)),
@@ -510,6 +536,29 @@ def check_c13(c, result):
                 ids[name] = qid
                 tq.append((qid, text))
             groups.append((ids, 1))
+        # lexical scoping: a predicate body that mentions a FROM alias freely keeps meaning that alias, also when
+        # the predicate is called from another predicate whose formal is spelled like the alias
+        others = [k for k in vkinds if k != K]
+        if others:
+            K2 = c.rng.choice(others)
+            acc2 = c.rng.choice(querygen.KINDS[K2][0])
+            vals2 = [v for v in c.vocab.get(K2, {}).get(acc2, []) if isinstance(v, str) and '\n' not in v] or ['beta']
+            w1 = querygen.lit(c.rng.choice(vals2))
+            frm2 = 'FROM %s AS a, %s AS b WHERE ' % (K, K2)
+            tail2 = ' SELECT a.%s(), b.%s()' % (acc, acc2)
+            INNER = 'predicate inner(%s x) { x.%s() == %s && b.%s() != %s } ' % (K, acc, v1, acc2, w1)
+            gd = {'orig': frm2 + 'a.%s() == %s && b.%s() != %s' % (acc, v1, acc2, w1) + tail2,
+                  'free_alias_direct': INNER + frm2 + 'inner(a)' + tail2,
+                  'free_alias_through_wrapper': INNER + 'predicate outer(%s z) { inner(z) } ' % K + frm2 + 'outer(a)' + tail2,
+                  'wrapper_formal_spelled_like_the_alias': INNER + 'predicate outer(%s b) { inner(b) } ' % K + frm2 + 'outer(a)' + tail2,
+                  'wrapper_negated': INNER + 'predicate outer(%s b) { !(!inner(b)) } ' % K + frm2 + 'outer(a)' + tail2,
+                  'same_alias_twice': 'predicate both(%s p, %s q) { p.%s() == %s && q.%s() == %s } ' % (K, K, acc, v1, acc, v1) + 'predicate nb(%s r) { r.%s() != %s } ' % (K2, acc2, w1) + frm2 + 'both(a, a) && nb(b)' + tail2}
+            ids = {}
+            for name, text in gd.items():
+                qid = 'n%dd_%s' % (gi, name)
+                ids[name] = qid
+                tq.append((qid, text))
+            groups.append((ids, 2))
         c.stats['c13_nested_value_groups'] += 3
     res, ip, _ = c.run(tq)
     model = c.model(tq)
@@ -574,6 +623,53 @@ def check_c14(c, result):
                 break
         if base[0] == 'ok' and sum(tuples_of(base[1], k).values()):
             c.stats['c14_groups_nonempty'] += 1
+    # rule files re-wrapped and re-indented (a line break at every token boundary in turn, every token on a line of
+    # its own, CRLF): `query --query-file` and `ci` must report what the one-line query reports.  The conditions carry
+    # arithmetic, so that wrapped lines begin with `*`, `/`, `-`, `!`, `(`, `.`
+    def cli_locs(args):
+        rc, o, e = run([B + '/pathfinder'] + args, timeout=300, env=dict(ENV, HOME=c.work))
+        ls = [l for l in o.decode('utf-8', 'replace').split('\n') if l.startswith('{"output"')]
+        try:
+            return sorted((r['file'], r['line'], r['code']) for r in json.loads(ls[-1]).get('result_set') or []) if ls else None
+        except Exception:
+            return None
+    nfile = 0
+    for qid, q in qs[:4 if c.tier == 'quick' else 25]:
+        toks = querygen.query_tokens(q)
+        if any('\n' in t or '\r' in t for t in toks):
+            continue
+        si = len(toks) - 1 - toks[::-1].index('SELECT')
+        toks = toks[:si] + (['&&'] if 'WHERE' in toks[:si] else ['WHERE']) + ['6', '/', '2', '*', '3', '-', '1', '==', '8'] + toks[si:]
+        one = ' '.join(toks)
+        ref = cli_locs(['query', '--disable-metrics', '--project', c.proj, '--output', 'json', '--query', one])
+        layouts = [('every token on its own line', '\n'.join(toks) + '\n'), ('crlf, indented', '\r\n\t'.join(toks) + '\r\n')]
+        for bi in range(1, len(toks)):
+            if toks[bi] in ('*', '/', '-', '!', '(', '.', '==', '&&') and c.rng.random() < 0.5:
+                layouts.append(('line break before token %d (%s)' % (bi, toks[bi]), ' '.join(toks[:bi]) + '\n    ' + ' '.join(toks[bi:]) + '\n'))
+        for name, body in layouts[:8 if c.tier == 'quick' else 40]:
+            nfile += 1
+            rdir = '%s/c14rules%d' % (c.work, nfile)
+            os.makedirs(rdir, exist_ok=True)
+            fp = rdir + '/r.cql'
+            open(fp, 'wb').write(('/**\n * @id r\n */\n' + body).encode())
+            got = cli_locs(['query', '--disable-metrics', '--project', c.proj, '--output', 'json', '--query-file', fp])
+            c.stats['c14_rule_file_layouts'] += 1
+            if got != ref:
+                result.violations.append(payload_replay('C14', 'a rule file gives other results when its query is re-wrapped (%s; query --query-file)' % name, [one, body],
+                                                        'one line: %s results; re-wrapped: %s' % (len(ref) if ref is not None else 'error', len(got) if got is not None else 'error'), c.files))
+                break
+            outp = rdir + '/ci.json'
+            run([B + '/pathfinder', 'ci', '--disable-metrics', '--project', c.proj, '--ruleset', rdir, '--output', 'json', '--output-file', outp], timeout=300, env=dict(ENV, HOME=c.work))
+            try:
+                ent = json.load(open(outp))[0]
+                rs_ = ent['result']['result_set'] if isinstance(ent.get('result'), dict) else []
+                goti = sorted((r['file'], r['line'], r['code']) for r in rs_ or [])
+            except Exception:
+                goti = None
+            if goti != (ref or []) and not (ref is None and not goti):
+                result.violations.append(payload_replay('C14', 'a rule file gives other results when its query is re-wrapped (%s; ci)' % name, [one, body],
+                                                        'one line: %s results; re-wrapped: %s' % (len(ref) if ref is not None else 'error', len(goti) if goti is not None else 'error'), c.files))
+                break
     c.samples += [tq[1][1], tq[2][1]]
 
 
@@ -979,6 +1075,18 @@ def check_c10_c11(c, result):
         cases.append(querygen.render(toks, rng, 'plain'))
         for _ in range(3):
             cases.append(querygen.render(mutate_tokens(toks, rng), rng, rng.choice(['plain', 'plain', 'wild'])))
+    # a literal that ends in an escaped backslash, followed by things that depend on knowing where literals end
+    # (a later literal with a run of blanks, `in` laid out with a tab / line break), in layouts that are and are not
+    # already normal
+    for lit_ in ('"C:\\\\"', '"\\\\"', '"a\\\\\\\\"', '"q\\"\\\\"'):
+        for sep in (' ', '  ', '\t', '\n', ' \n\t'):
+            t1 = 'FROM method_declaration AS m WHERE m.getName() != %s%s&& m.getVisibility()%sin ["public", "two  blanks"] SELECT m.getName(), "wide   gap", %s' % (lit_, sep, sep, lit_)
+            t2 = 'predicate p(method_declaration x) { x.getName() == %s || x.getName() == "a  b" }%sFROM method_declaration AS m WHERE p(m) SELECT "x  y"' % (lit_, sep)
+            cases += [t1, t2]
+            written[t1] = dict(frm='%s:%s' % (hx_('method_declaration'), hx_('m')), preds='',
+                               select=','.join(['method_chain', 'string:' + hx_('"wide   gap"'), 'string:' + hx_(lit_)]))
+            written[t2] = dict(frm='%s:%s' % (hx_('method_declaration'), hx_('m')), select='string:' + hx_('"x  y"'),
+                               preds='%s(%s:%s)' % (hx_('p'), hx_('method_declaration'), hx_('x')))
     if pid == 'C10':
         cases += unusual_queries()
         cases += predicate_graphs(rng, 25 if c.tier == 'quick' else 400)
